@@ -42,7 +42,10 @@ FILES_IN = {'a.tex': 'MRKINA', 'c': 'MRKINC', 'd.latex': 'MRKIND', 'e.tex': 'MRK
 FILES_OUT = {'tex2/o.tex': 'MRKOUTO', 'tex2/a.tex': 'MRKOUTA2', 'texts/p.tex': 'MRKOUTP',
              'out/q.tex': 'MRKOUTQ', 'out/r': 'MRKOUTR', 'out/a.tex': 'MRKOUTA', 'top.tex': 'MRKOUTTOP',
              # siblings that differ from the input directory's name only by case
-             'TEX/s.tex': 'MRKOUTS', 'Tex2/t.tex': 'MRKOUTT', 'TEX/a.tex': 'MRKOUTU'}
+             'TEX/s.tex': 'MRKOUTS', 'Tex2/t.tex': 'MRKOUTT', 'TEX/a.tex': 'MRKOUTU',
+             # outside files named like the input directory itself plus an extension (a name that
+             # resolves to the directory, with the extension fallback applied to it)
+             'tex.tex': 'MRKOUTDIRT', 'texlink.latex': 'MRKOUTDIRL'}
 # name -> (location relative to base, target)
 LINKS = {
     'lf': ('tex/lf.tex', '../out/q.tex'),
@@ -56,6 +59,7 @@ LINKS = {
     'lup': ('tex/sub/up', '../..'),
     'lnk': ('out/lnk.tex', '../tex/n.tex'),     # outside name for an inside, including file
     'lcase': ('tex/lcase', '../TEX'),
+    'lsubtex': ('tex/sub.tex', '../out/q.tex'),     # a link named like an inside directory + .tex
 }
 COMPONENTS = ['a', 'a.tex', 'c', 'd', 'd.latex', 'e', 'b', 'b.tex', 'g', 'q', 'q.tex', 'r', 'o',
               'o.tex', 'p', 'x', 'x.tex', 'y', 'lf', 'lf.tex', 'li', 'top', 'top.tex',
@@ -226,7 +230,8 @@ def make_name(real, comps, absmode):
 # outside link (legitimate when the link is there: it resolves inside), directly, and via sub/..
 FIXED_NAMES = [(['..', 'out', 'lnk'], None), (['..', 'out', 'lnk.tex'], None),
                (['out', 'lnk.tex'], 'base'), (['n'], None), (['sub', '..', 'n.tex'], None),
-               (['sub', 'n2'], None)]
+               (['sub', 'n2'], None), (['.'], None), ([''], None), (['sub', '..'], None),
+               (['tex'], 'base'), (['texlink'], 'base'), (['sub'], None), (['..', 'tex'], None)]
 
 
 def check_layout(layout, res):
